@@ -20,7 +20,7 @@ func init() {
 			ruleC16R4(w, r)
 			ruleC16R2(w, r)
 			ruleC15R6(w, r, "C15.R6")
-			ruleC05R7(w, r, "C05.R7")
+			ruleC05R7(w, r, "C05.R7", 4, nil)
 			r.Rule("C16.R5", "no silent success over several inputs or outputs: the difference verdict of diff and sum-diff is latched across files/items; finish() of the text-out writer runs whatever the command body returned", 3)
 			for _, n := range []string{"DiffCommand.execute", "SumDiffCommand.execute"} {
 				if ex := fn(w.Cmd, n); ex != nil {
@@ -72,7 +72,9 @@ func ruleC16R1(w *World, r *Report) {
 				}
 				examined++
 				key := fmt.Sprintf("%s:ret-in-err-region", funcName(f))
-				if nilRet {
+				if nilRet && errorClassifiedBefore(rg.x, rg.test, rg.head, ret) {
+					r.OK("C16.R1", key, w.instrPos(ret), "the error is classified (errors.As / errors.Is / type test) on every way to this return: a recognised condition is recovered from, not swallowed")
+				} else if nilRet {
 					r.Violate("C16.R1", key, w.instrPos(ret),
 						fmt.Sprintf("returns nil although it is only reached when the error tested at %s is non-nil: the failure is reported as success", w.blockPos(rg.test)))
 				} else {
@@ -422,4 +424,40 @@ func ruleC16R4(w *World, r *Report) {
 		}
 	}
 	_ = strings.Join
+}
+
+// errorClassifiedBefore: on the non-nil edge test->head, a block dominating ret's block hands the tested
+// error x to errors.As, errors.Is, os.IsNotExist (or a module As...Error helper) or type-asserts it, and ret
+// lies on the edge of that test that recognised the condition.
+func errorClassifiedBefore(x ssa.Value, test, head *ssa.BasicBlock, ret *ssa.Return) bool {
+	f := ret.Parent()
+	for _, b := range f.Blocks {
+		if !(b == head || head.Dominates(b)) || !(b == ret.Block() || b.Dominates(ret.Block())) {
+			continue
+		}
+		for _, in := range b.Instrs {
+			switch c := in.(type) {
+			case *ssa.Call:
+				sc := c.Common().StaticCallee()
+				if sc == nil {
+					continue
+				}
+				isCls := isPkgFunc(sc, "errors", "As") || isPkgFunc(sc, "errors", "Is") || isPkgFunc(sc, "os", "IsNotExist") ||
+					(strings.HasPrefix(sc.Name(), "As") && strings.HasSuffix(sc.Name(), "Error"))
+				if !isCls {
+					continue
+				}
+				for _, a := range c.Common().Args {
+					if a == x || flowsTo(x, a) {
+						return true
+					}
+				}
+			case *ssa.TypeAssert:
+				if c.X == x || flowsTo(x, c.X) {
+					return true
+				}
+			}
+		}
+	}
+	return false
 }
